@@ -160,6 +160,43 @@ Section Codec.
     end.
   Definition wf_doc (d : doc) : bool := forallb (fun kv => wf_value (snd kv)) d.
 
+  (* ---- multi-energy nets: name -> member net (a pandapipes net of this layer, or a pandapower net, which is
+     entirely pandapower's = a leaf), the controller table (DataFrame with controller objects: pandapower's = a
+     leaf) and scalars; json_net for MultiNet applies the same `_` filter and signature ---- *)
+  Inductive member := MPipes (d : doc) | MPower (l : L).
+  Inductive mvalue := MVLeaf (l : L) | MVNets (nets : list (string * member)).
+  Definition mdoc := list (string * mvalue).
+  Inductive jmember := JMPipes (j : jdoc) | JMPower (e : E).
+  Inductive jmvalue := JMVLeaf (e : E) | JMVNets (nets : list (string * jmember)).
+  Record jmdoc := { jm_class : string; jm_items : list (string * jmvalue) }.
+
+  Definition enc_member (m : member) : jmember :=
+    match m with MPipes d => JMPipes (encode d) | MPower l => JMPower (lenc l) end.
+  Definition dec_member (j : jmember) : option member :=
+    match j with
+    | JMPipes jd => match decode jd with Some d => Some (MPipes d) | None => None end
+    | JMPower e => match ldec e with Some l => Some (MPower l) | None => None end
+    end.
+  Definition enc_mvalue (v : mvalue) : jmvalue :=
+    match v with MVLeaf l => JMVLeaf (lenc l) | MVNets ns => JMVNets (map (on_snd enc_member) ns) end.
+  Definition dec_mvalue (j : jmvalue) : option mvalue :=
+    match j with
+    | JMVLeaf e => match ldec e with Some l => Some (MVLeaf l) | None => None end
+    | JMVNets ns => match mapM (on_sndM dec_member) ns with Some x => Some (MVNets x) | None => None end
+    end.
+  Definition mstrip (d : mdoc) : mdoc := filter (fun kv => public_key (fst kv)) d.
+  Definition encode_multi (d : mdoc) : jmdoc :=
+    {| jm_class := "MultiNet"; jm_items := map (on_snd enc_mvalue) (mstrip d) |}.
+  Definition decode_multi (j : jmdoc) : option mdoc :=
+    if String.eqb (jm_class j) "MultiNet" then mapM (on_sndM dec_mvalue) (jm_items j) else None.
+  Definition q_member (m : member) : member :=
+    match m with MPipes d => MPipes (map_leaves (strip_internal d)) | MPower l => MPower (quant l) end.
+  Definition q_mvalue (v : mvalue) : mvalue :=
+    match v with MVLeaf l => MVLeaf (quant l) | MVNets ns => MVNets (map (on_snd q_member) ns) end.
+  Definition wf_member (m : member) : bool := match m with MPipes d => wf_doc d | MPower _ => true end.
+  Definition wf_mdoc (d : mdoc) : bool :=
+    forallb (fun kv => match snd kv with MVLeaf _ => true | MVNets ns => forallb (fun x => wf_member (snd x)) ns end) d.
+
   (* ---- format conversion ---- *)
   Variable version : Type.
   Variable vge : version -> version -> bool.       (* packaging.version comparison *)
